@@ -2,11 +2,13 @@ package scen
 
 import (
 	"encoding/json"
+	"errors"
 	"fmt"
 	"os"
 	"path/filepath"
 	"sort"
 	"strings"
+	"syscall"
 
 	oci "github.com/opencontainers/runtime-spec/specs-go"
 
@@ -113,9 +115,8 @@ func (c *cv) genOp(pl *plan) mutOp {
 			cuts := cutsFor(len(m.Content))
 			pl.files[p] = true
 			return mutOp{fmt.Sprintf("create %s (%d writes) = %s", p, len(cuts)+1, m), func() {
-				unlinkIfSymlink(p)
-				f, err := simos.OpenFile(p, simos.O_WRONLY|simos.O_CREATE|simos.O_TRUNC, 0o644)
-				if err != nil {
+				f := openNoFollow(p, simos.O_WRONLY|simos.O_CREATE|simos.O_TRUNC)
+				if f == nil {
 					return
 				}
 				writeChunks(f, m.Content, cuts)
@@ -132,7 +133,7 @@ func (c *cv) genOp(pl *plan) mutOp {
 				if unlinkIfSymlink(p) {
 					return // (a write through the link would change a file outside the watched directory)
 				}
-				f, err := simos.OpenFile(p, simos.O_WRONLY|simos.O_TRUNC, 0o644)
+				f, err := simos.OpenFile(p, simos.O_WRONLY|simos.O_TRUNC|syscall.O_NOFOLLOW, 0o644)
 				if err != nil {
 					return
 				}
@@ -254,7 +255,7 @@ func (c *cv) genOp(pl *plan) mutOp {
 					return
 				}
 				if populate {
-					simos.WriteFile(d+"/"+name, m.Content, 0o644)
+					writeNoFollow(d+"/"+name, m.Content)
 				}
 			}}
 		case 11: // a Spec that appears as a symbolic link (to a file kept elsewhere, or dangling)
@@ -308,7 +309,7 @@ func (c *cv) genOp(pl *plan) mutOp {
 			return mutOp{fmt.Sprintf("rm -r %s; mkdir %s; write %s = %s", d, d, name, m), func() {
 				simos.RemoveAll(d)
 				if simos.MkdirAll(d, 0o755) == nil {
-					simos.WriteFile(d+"/"+name, m.Content, 0o644)
+					writeNoFollow(d+"/"+name, m.Content)
 				}
 			}}
 		}
@@ -325,6 +326,32 @@ func unlinkIfSymlink(p string) bool {
 		return true
 	}
 	return false
+}
+
+// writeNoFollow writes a file in a watched directory without ever writing
+// THROUGH a symbolic link found under that name (see unlinkIfSymlink).
+func writeNoFollow(p string, content []byte) {
+	if f := openNoFollow(p, simos.O_WRONLY|simos.O_CREATE|simos.O_TRUNC); f != nil {
+		f.Write(content)
+		f.Close()
+	}
+}
+
+// openNoFollow opens p for writing with O_NOFOLLOW; a symbolic link found
+// there is removed and the open tried once more (atomic with respect to the
+// other mutator: no window between the test and the open).
+func openNoFollow(p string, flags int) *simos.File {
+	for try := 0; try < 2; try++ {
+		f, err := simos.OpenFile(p, flags|syscall.O_NOFOLLOW, 0o644)
+		if err == nil {
+			return f
+		}
+		if !errors.Is(err, syscall.ELOOP) {
+			return nil
+		}
+		simos.Remove(p)
+	}
+	return nil
 }
 
 // observation of a cache through queries only
@@ -655,7 +682,7 @@ func converge(r *core.Run, reconfigure bool) {
 		progs[k] = append(progs[k], mutOp{fmt.Sprintf("rm -r %s (crowded); mkdir %s; write %s = %s", d, d, name, m), func() {
 			simos.RemoveAll(d)
 			if simos.MkdirAll(d, 0o755) == nil {
-				simos.WriteFile(d+"/"+name, m.Content, 0o644)
+				writeNoFollow(d+"/"+name, m.Content)
 			}
 		}})
 		r.Notef("mutator%d: rm -r %s (crowded); mkdir; write %s = %s", k, d, name, m)
@@ -667,7 +694,7 @@ func converge(r *core.Run, reconfigure bool) {
 			for i := 0; i < 40; i++ {
 				e.w.Yield(&sched.Op{Kind: "idle", Path: ""})
 			}
-			simos.WriteFile(d+"/late.json", late.Content, 0o644)
+			writeNoFollow(d+"/late.json", late.Content)
 		}})
 		r.Notef("mutator%d: (later) create %s/late.json = %s", k, d, late)
 	}
